@@ -188,14 +188,18 @@ inductive PF where
 def allDig (s : List Char) : Bool := s.all isDig
 def digVal (s : List Char) : Nat := s.foldl (fun acc c => acc * 10 + (c.toNat - 48)) 0
 
+/-- optional sign of a number text -/
+def signSplit : List Char → Bool × List Char
+  | '-' :: r => (true, r)
+  | '+' :: r => (false, r)
+  | r => (false, r)
+
 /-- `float(s)` for plain fixed-point text `[sign] digits [ '.' digits ]`. -/
 def parseFixed (s : List Char) : PF :=
   let t := strip s
   if t.isEmpty then .bad else
-  let (neg, body) := match t with
-    | '-' :: r => (true, r)
-    | '+' :: r => (false, r)
-    | r => (false, r)
+  let neg := (signSplit t).1
+  let body := (signSplit t).2
   let ip := body.takeWhile isDig
   let rest := body.dropWhile isDig
   match rest with
@@ -379,6 +383,58 @@ def readPdb (inclBonds : Bool) (lines0 : List (List Char)) : R FileRead :=
           | some (.error e) => some (.error e)
           | some (.ok bs) => some (.ok { atoms := atoms, models := coords, bonds := bs })
         else some (.ok { atoms := atoms, models := coords, bonds := [] })
+
+/-! ## `get_structure(model=k)`: `_get_atom_record_indices_for_model` -/
+
+def isModelLine (l : List Char) : Bool := startsWith "MODEL".toList l
+
+/-- `[(i, lines[i]) for i in range(o, …)]` -/
+def enumFrom {α : Type} : Nat → List α → List (Nat × α)
+  | _, [] => []
+  | o, x :: xs => (o, x) :: enumFrom (o + 1) xs
+
+/-- `_model_start_i` -/
+def modelStarts (lines : List (List Char)) : List Nat :=
+  let s := ((enumFrom 0 lines).filter (fun p => isModelLine p.2)).map (·.1)
+  if s.isEmpty then (if lines.any isAtomLine then [0] else []) else s
+
+/-- the atom records with index in `[lo, hi)` (`hi = none`: no upper bound) -/
+def recordsBetween (lines : List (List Char)) (lo : Nat) (hi : Option Nat) : List (List Char) :=
+  ((enumFrom 0 lines).filter fun p =>
+    isAtomLine p.2 && decide (lo ≤ p.1) && (match hi with | some h => decide (p.1 < h) | none => true)).map (·.2)
+
+/-- `self.lines[i] for i in self._get_atom_record_indices_for_model(model)` (after the fix that refuses
+negative indices below `-n_models`). -/
+def selectModel (lines : List (List Char)) (model : Int) : Except Err (List (List Char)) :=
+  let starts := modelStarts lines
+  let last : Int := starts.length
+  if model = 0 then .error .valueError else
+  let m := if model < 0 then last + model + 1 else model
+  if m < 1 then .error .valueError else
+  if m < last then .ok (recordsBetween lines (starts.getD (m.toNat - 1) 0) (some (starts.getD m.toNat 0)))
+  else if m = last then .ok (recordsBetween lines (starts.getD (m.toNat - 1) 0) none)
+  else .error .valueError
+
+/-- `PDBFile.read(text).get_structure(model=k, extra_fields=all four, include_bonds=…)` -/
+def readModel (model : Int) (inclBonds : Bool) (lines0 : List (List Char)) : R FileRead :=
+  let lines := lines0.map (ljust 80)
+  match selectModel lines model with
+  | .error e => some (.error e)
+  | .ok recs =>
+    match mapMR parseAtomLine recs with
+    | none => none
+    | some (.error e) => some (.error e)
+    | some (.ok atoms) =>
+      match mapMR parseCoordLine recs with
+      | none => none
+      | some (.error e) => some (.error e)
+      | some (.ok coords) =>
+        if inclBonds then
+          match readBonds (atoms.map (·.atomId)) lines with
+          | none => none
+          | some (.error e) => some (.error e)
+          | some (.ok bs) => some (.ok { atoms := atoms, models := [coords], bonds := bs })
+        else some (.ok { atoms := atoms, models := [coords], bonds := [] })
 
 /-! ## Specification predicates used by the theorems (`Props/C07.lean`) -/
 
